@@ -10,7 +10,7 @@ SCHEDULE_DEPENDENT = True
 RULE = ('the real ActiveFabric driven by seeded histories over {start, start again while running, stop, stop again, clear, '
         'subscribe, publish, is_alive, start of an active object (which starts the fabric if it is not alive), waking an '
         'active object after a fabric stop}: one client for the sequential histories, 2-3 clients for concurrent start() / '
-        'ActiveObject.start_at calls (line and bytecode granularity inside start/initiate_thread/start_thread); in 40% of the sequential histories a delivery thread is stalled for up to a minute of virtual time (slow node), possibly in the middle of a delivery. Oracle: the '
+        'ActiveObject.start_at calls (line and bytecode granularity inside start/initiate_thread/start_thread); in 40% of the sequential histories a delivery thread is stalled for up to a minute of virtual time (slow node), possibly in the middle of a delivery; in a third stratum a subscriber queue whose append raises (injected fault) kills the delivery thread that serves it, and start/stop/is_alive go on being called on the half-alive fabric. Oracle: the '
         'kernel counts live delivery threads itself at every pre-emption point - never more than one fifo and one lifo '
         'thread; is_alive() equals "both kernel-level threads are alive" whenever that did not change during the call; after '
         'stop() returns (it must return: deadlock detection) both threads are dead and an active object woken afterwards ends '
@@ -18,10 +18,10 @@ RULE = ('the real ActiveFabric driven by seeded histories over {start, start aga
         'once. Non-trivial = a history with start while running, or a restart after stop, or two overlapping starts; distinct '
         '= distinct (op kind sequence, interleaving signature) tuples.')
 ASSUMPTIONS = ['stop histories are sequential (one client): with a concurrent start() the state after stop() is not determined by the statement']
-PROBES = ['start_while_alive', 'restart_after_stop', 'overlapping_starts']
+PROBES = ['start_while_alive', 'restart_after_stop', 'overlapping_starts', 'delivery_thread_killed_by_subscriber_fault']
 PLAN = {
-  'quick': {'strata': {'sequential': 2500, 'concurrent-start': 2500}, 'wall_s': 300, 'chunk': 50, 'min_conclusive': 1000},
-  'thorough': {'strata': {'sequential': 60000, 'concurrent-start': 60000}, 'wall_s': 900, 'chunk': 100, 'min_conclusive': 10000},
+  'quick': {'strata': {'sequential': 2500, 'concurrent-start': 2500, 'half-alive': 1000}, 'wall_s': 300, 'chunk': 50, 'min_conclusive': 1000},
+  'thorough': {'strata': {'sequential': 60000, 'concurrent-start': 60000, 'half-alive': 30000}, 'wall_s': 900, 'chunk': 100, 'min_conclusive': 10000},
 }
 
 
@@ -59,6 +59,29 @@ def generate(seed, stratum, tier):
       sc['stalls'] = common.draw_stalls(rng, 400, rate=1.0, n=(1, 4), durations=(50000, 1500000, 5000000, 60000000))
       sc['stall_roles'] = ['fabric.fifo', 'fabric.lifo']
     return sc
+  elif stratum == 'half-alive':
+    # fault injection: a subscriber queue whose append raises kills the delivery thread that serves it; the fabric is
+    # then half alive (one thread of one kind left) while start/stop/is_alive go on being called
+    kind = rng.choice(['fifo', 'lifo'])
+    nth = rng.choice([0, 0, 1])
+    queues = queues + [{'kind': 'faulty', 'fail_at': [nth]}]
+    ops = [['start'] if rng.random() < 0.6 else ['ao_start', 0], ['subscribe', 2, 'SF', kind, 'event']]
+    if rng.random() < 0.4:
+      ops.append(['subscribe', 0, 'SF', kind, 'event'])
+    for _ in range(nth + 1):
+      ops += [['publish', 'SF', None], ['sleep', 0.01]]
+    for _ in range(rng.randrange(1, 7)):
+      k = rng.choices(['start', 'stop', 'is_alive', 'publish', 'ao_start'], weights=[5, 3, 3, 1, 1])[0]
+      if k == 'publish':
+        ops.append(['publish', 'SA', None])
+      elif k == 'ao_start':
+        if not any(o[0] == 'ao_start' and o[1] == 1 for o in ops):
+          ops.append(['ao_start', 1])
+      else:
+        ops.append([k])
+    ops += [['start'], ['is_alive'], ['subscribe', 1, 'SZ', rng.choice(['fifo', 'lifo']), 'event'], ['publish', 'SZ', None], ['sleep', 0.01], ['is_alive']]
+    sd = common.draw_sched(rng, grans=('sync', 'line'), expected_steps=500, victims=['fabric.fifo'])
+    return {'queues': queues, 'clients': [ops], 'stratum': stratum, 'sched': sd}
   else:
     nclients = rng.randrange(2, 4)
     clients = []
@@ -101,7 +124,10 @@ def execute(sc, sched):
     # reach
     alive = False
     nt = False
-    if sc['stratum'] == 'sequential':
+    if sc['stratum'] in ('sequential', 'half-alive'):
+      if sim.faults.get('subscriber_append_raises'):
+        sim.probe('delivery_thread_killed_by_subscriber_fault')
+        nt = True
       stopped_once = False
       for o in sc['clients'][0]:
         if o[0] in ('start', 'ao_start'):
@@ -157,14 +183,16 @@ def judge(sc, run, sim, reason, res):
     res.violate('call-raised', {'op': op[0], 'exc': typ}, 'client %d op#%d %s raised %s\n%s' % (k, i, op, typ, tb))
     return
   if sim.thread_errors:
-    common.thread_error_violations(sim, res)
-    return
+    # a delivery thread killed by the injected subscriber fault is the fault, not a finding
+    common.thread_error_violations(sim, res, allow=('InjectedFault',))
+    if res.outcome == 'violation':
+      return
   for seq, reported, before, after in run.alive_reports:
     if before == after and bool(reported) != before:
       res.violate('is-alive-wrong', {'reported': bool(reported)},
                   'is_alive() returned %r while the delivery threads were %s; history: %s' % (reported, 'both alive' if before else 'not both alive', sc['clients']))
       return
-  if sc['stratum'] == 'sequential':
+  if sc['stratum'] in ('sequential', 'half-alive'):
     for k, i, op, b, e, out in run.ops_log:
       if op[0] == 'stop' and out is True:
         res.violate('alive-after-stop', {}, 'stop() returned but delivery threads are still alive; history: %s' % sc['clients'])
